@@ -47,6 +47,11 @@ CHECKS = {
 
  'C10': ('bounded exhaustive enumeration of call histories on shared objects, each decided by Q2 term-by-term equality of the lifted final problem with a fresh object\'s problem (symbolic data); cache poisoning', '6 C10',
          'All histories up to length 1 (quick) / 2 (thorough) over 8 operations x 5 final set-ups x 3 portfolios (interval dictionaries with/without end, take dictionaries, own frequency/window/wacc, scaled and structured wrappers, order book): the final problem equals the fresh one for all parameter values and prices, no later call crashes, and no result depends on a cache an earlier call left on the grid. Histories are enumerated (bounded), data are symbolic.'),
+
+ 'C03': ('Q2/Q1 on the real optimize() executed against a recorder stub of cvxpy with fully symbolic problems (all row-type strings, adversarial mappings) + solver contract; concrete contract validation against the real solvers with z3 Optimize as oracle', '6 C03',
+         'EAO\'s own part of the optimiser (hand-over of bounds/rows/booleans/objective, result assembly, status handling, dual bookkeeping, split merging) is decided for ALL coefficient values of m<=3 x 3 problems over every row-type string and mapping shape, and for assembled LP/MIP problems; that the native solver answers optimally is an explicit contract, validated on seeded instances with every installed solver (instance testing, reported as such).'),
+ 'C17': ('Q1/Q2 characterisation of the real make_slp output as the two-stage program (both implications per scenario, value = mean of independently set-up scenario values); robust target through the cvxpy recorder stub (epigraph rows, objective, reported value)', '6 C17',
+         'For contract+storage, two-node, transport-only-balance, reverse transport with costs, scaled and multi-commodity portfolios, boundary at first/middle/last step and 1-2 extra scenarios: the make_slp problem is exactly {x_p, z^s : F(x_p,z^s) for all s} with value the scenario mean, for all parameters and scenario prices; the property\'s bounds are consequences. Robust: recorded problem is max t, t <= -c_s.x, x in F.'),
 }
 NA = {}
 props = [json.loads(l) for l in open(os.path.join(ROOT, 'properties.jsonl'))]
